@@ -107,8 +107,12 @@ def jobs(tier, seed):
                 out.append(('agree.tx.v%d.%d.%s' % (ver, blen, legacy), 'h_agree_tx', dict(ver=ver, blen=blen, legacy=legacy)))
         for mod in ('ModGMSK', 'Mod8PSK'):
             out.append(('agree.rx.v0.%s.%s' % (mod, legacy), 'h_agree_rx', dict(ver=0, mod=mod, nope=False, legacy=legacy)))
+    from ..run import known_keys
+    kk = known_keys('C17')
     for mod in MODS:
-        out.append(('agree.rx.v1.%s' % mod, 'h_agree_rx', dict(ver=1, mod=mod, nope=False, legacy=False)))
+        excl = (mod == 'ModGMSK_AB' and K_AB in kk)
+        out.append(('agree.rx.v1.%s' % mod, 'h_agree_rx', dict(ver=1, mod=mod, nope=False, legacy=False, known='exclude' if excl else None)))
+        if excl: out.append(('known:%s' % K_AB, 'h_agree_rx', dict(ver=1, mod=mod, nope=False, legacy=False, known='only')))
     out.append(('agree.rx.v1.nope', 'h_agree_rx', dict(ver=1, mod='ModGMSK', nope=True, legacy=False)))
     for code in range(16):
         out.append(('burstlen.mod=%d' % code, 'h_burst_len', dict(code=code)))
@@ -275,10 +279,15 @@ def h_agree_tx(ctx, ver, blen, legacy):
         check_seq_eq(ctx, 'hard-bits', hb, items_of(m.burst))
 
 
-def h_agree_rx(ctx, ver, mod, nope, legacy):
+K_AB = 'C17:gmsk-ab-tsc-set-1'
+
+
+def h_agree_rx(ctx, ver, mod, nope, legacy, known=None):
     T = env.load(ctx, 'data_msg', 'codec', 'trxd_proto')
     with env.symbolic(ctx):
         m = sym_rx(ctx, T, ver, mod, nope)
+        if known == 'exclude': ctx.assume(bnot(eq(m.tsc_set, 1)))
+        if known == 'only': ctx.assume(eq(m.tsc_set, 1))
         data = m.gen_msg(legacy)
         pdu = (T.trxd_proto.PDUv0Rx if ver == 0 else T.trxd_proto.PDUv1Rx)()
         with ctx.no_raise('agree:accepted'):
